@@ -65,7 +65,49 @@ def gen_job(job):
     return kind, lines
 
 
+def do_replay(prop, path):
+    """re-run the recorded history (same kind of initial content, same entry points and kill positions)"""
+    import random, tempfile
+    body = json.load(open(path))
+    kind, cname = body["kind"], body["content"]
+    rng = random.Random(path)
+    maker = dict(dbfiles.contents(kind, rng, "quick"))[cname]
+    tmp = "/dev/shm" if os.path.isdir("/dev/shm") else None
+    base = tempfile.mkdtemp(prefix="dbf-replay-", dir=tmp)
+    try:
+        d = os.path.join(base, "run")
+        os.makedirs(d)
+        maker(os.path.join(d, dbfiles.MAIN))
+        mp = os.path.join(d, dbfiles.MAIN)
+        s0 = open(mp, "rb").read() if os.path.exists(mp) else None
+        scratch = os.path.join(base, "scratch")
+        first = dbfiles.abstract_dir(d, kind, s0, scratch)["main"]
+        full = {"get": "get-" + kind, "create": "create-" + kind, "open": "open"}
+        lines = []
+        for i, h in enumerate(body["history"]):
+            pre = dbfiles.abstract_dir(d, kind, s0, scratch)
+            r = dbfiles.run_child(full[h["entry"]], mp, h["crash_at"])
+            post = dbfiles.abstract_dir(d, kind, s0, scratch)
+            lines.append(dict(sid=1, i=i + 1, kind=kind, content=cname, entry=h["entry"], crash_at=h["crash_at"],
+                              pre=pre, post=post, result=dbfiles.model_result(r["result"]), raw=r["result"], first=first))
+            log("%d %s%s -> %s" % (i + 1, h["entry"], "" if h["crash_at"] < 0 else " killed at step %d" % h["crash_at"], r["result"]))
+        res, lg = dbfiles.check_lines(lines, kind, os.path.join(base, "ft"), "replay")
+        if res is None:
+            log("machinery failure:", lg[-2000:])
+            return 2
+        bad = [r for r in res if r["kind"] == "prop" and set(r["what"]) & set(CLAUSES[prop])]
+        if bad:
+            log("VIOLATION property=%s replay=%s  clauses=%s" % (prop, path, sorted(set(bad[0]["what"]) & set(CLAUSES[prop]))))
+            return 1
+        log("replay: property %s held on this history" % prop)
+        return 0
+    finally:
+        shutil.rmtree(base, ignore_errors=True)
+
+
 def main(prop, tier, seed, replay):
+    if replay:
+        return do_replay(prop, replay)
     t0 = time.time()
     base = os.environ.get("MBH_WORK") or os.path.join(VERIF, "work")
     work = os.path.join(base, "%s-%d" % (prop, os.getpid()))
